@@ -442,6 +442,21 @@ func (e *Exec) rtIntrinsic(name string, fn *ssa.Function, args []Value) (Value, 
 	case "envStoreService":
 		env := e.envOf(args[0])
 		return &IfaceV{t: modelDynType, v: &ModelObj{kind: "storeservice", st: env.stores[0]}}, true
+	case "envMark":
+		// a recording dependency leaves a marker in the store of the context it was called with
+		env := e.envOf(args[0])
+		st := env.stores[0]
+		if c := ctxModel(args[1]); c != nil && c.st != nil {
+			st = c.st
+		}
+		if st.marks == nil {
+			st.marks = map[string]bool{}
+		}
+		st.marks[e.mustString(args[2], "envMark")] = true
+		return nil, true
+	case "envMarked":
+		env := e.envOf(args[0])
+		return tb.Bool(env.stores[0].marks[e.mustString(args[1], "envMarked")]), true
 	case "envBeginTx":
 		env := e.envOf(args[0])
 		env.stores[0].txMark = len(env.stores[0].log)
